@@ -33,9 +33,9 @@ ASSUMPTIONS = [
 
 
 def plan(tier, seed):
-    n = 40 if tier == "quick" else 900
+    n = 150 if tier == "quick" else 2500
     return [{"name": "bundle-%d" % p, "kind": "bundle", "n": n}
-            for p in range(12 if tier == "quick" else 16)]
+            for p in range(16)]
 
 
 def _same(a, b):
